@@ -20,6 +20,8 @@ func c02BGP(cl int) *route.Path {
 			EBGP: ndBool(), Origin: ndU8(),
 		},
 		ASPathLen: ndU16(),
+		// a populated AS_PATH (first ASN = neighbouring AS, symbolic): the decision must not depend on it beyond ASPathLen
+		ASPath: &types.ASPath{{Type: types.ASSequence, ASNs: []uint32{ndU32(), ndU32()}}},
 	}
 	switch cl { // 0: attribute absent; 1: one cluster id; 2: two cluster ids
 	case 1:
